@@ -838,9 +838,27 @@ func checkWorkFlow(p *load.Program, r *kit.Report, funcs []*ssa.Function, workF 
 			r.Unknown("WORK-FLOW", name+"/accumulate", "-", "expected one store of AccumulatedWork into the new HeaderData, found %d", len(stored))
 			continue
 		}
-		v := stored[0]
-		a, isAlloc := bigArg(v).(*ssa.Alloc)
-		why := ""
+		// the bits are those of the submitted header (a parameter), not of its predecessor
+		ownBits := func(v ssa.Value) bool {
+			lf, base := kit.LoadedField(v)
+			if lf == nil || lf != bitsF {
+				return false
+			}
+			_, isParam := kit.Strip(base).(*ssa.Parameter)
+			return isParam
+		}
+		// the stored work is decided per alternative: a merge of the root case (no predecessor: the
+		// header's own work, reached only with parent == nil) and the linked case is the same sum
+		evalAlt := func(v ssa.Value, rootOnly bool) string {
+			if rootOnly {
+				if cw := isCallTo(v, load.BitcoinPkg+".ConvertToWork"); cw != nil {
+					if cd := isCallTo(cw.Call.Args[0], load.BitcoinPkg+".ConvertToDifficulty"); cd != nil && ownBits(cd.Call.Args[0]) {
+						return ""
+					}
+				}
+			}
+			a, isAlloc := bigArg(v).(*ssa.Alloc)
+			why := ""
 		if !isAlloc {
 			why = "stored work is not a big.Int allocated in this function (" + describe(v) + ")"
 		} else {
@@ -885,7 +903,7 @@ func checkWorkFlow(p *load.Program, r *kit.Report, funcs []*ssa.Function, workF 
 						}
 					}
 					if cw := isCallTo(op, load.BitcoinPkg+".ConvertToWork"); cw != nil && m == "Add" {
-						if cd := isCallTo(cw.Call.Args[0], load.BitcoinPkg+".ConvertToDifficulty"); cd != nil && loadOfField(cd.Call.Args[0], bitsF) {
+						if cd := isCallTo(cw.Call.Args[0], load.BitcoinPkg+".ConvertToDifficulty"); cd != nil && ownBits(cd.Call.Args[0]) {
 							sawOwn = true
 						}
 					}
@@ -899,6 +917,32 @@ func checkWorkFlow(p *load.Program, r *kit.Report, funcs []*ssa.Function, workF 
 			case !sawOwn:
 				why = "ConvertToWork(ConvertToDifficulty(header.Bits)) is not added to the new header's work"
 			}
+		}
+			return why
+		}
+		v := stored[0]
+		why := ""
+		if ph, isPhi := kit.Strip(v).(*ssa.Phi); isPhi && name == "NewBranch" && len(f.Params) > 0 {
+			for i, e := range ph.Edges {
+				pred := ph.Block().Preds[i]
+				root := false
+				parent := f.Params[0]
+				ng := kit.FindGuards(f, func(c ssa.Value) (bool, bool) {
+					b, ok := c.(*ssa.BinOp)
+					if !ok || (b.Op != token.EQL && b.Op != token.NEQ) || b.X != ssa.Value(parent) || !kit.IsNilConst(b.Y) {
+						return false, false
+					}
+					return true, b.Op == token.EQL
+				})
+				if len(ng) > 0 && len(pred.Instrs) > 0 {
+					root, _ = kit.DominatedByEdges(f, pred.Instrs[len(pred.Instrs)-1], edgesOf(ng, true), nil, p.Pos)
+				}
+				if w := evalAlt(e, root); w != "" {
+					why = w
+				}
+			}
+		} else {
+			why = evalAlt(v, false)
 		}
 		r.Check(why == "", "WORK-FLOW", name+"/accumulate", posOf(p, f.Blocks[0].Instrs[0]), "work = predecessor work + work(header.Bits)", why)
 	}
